@@ -146,7 +146,7 @@ class Cond:
 
 class Path:
     """One abstract path: ordered events (loops as nested LOOP events), how it exits."""
-    __slots__ = ("events", "exit", "conds", "st")
+    __slots__ = ("events", "exit", "conds", "st", "pkt_events")
 
     def __init__(self, events, exit_, conds, st=None):
         self.events = events
